@@ -43,8 +43,12 @@ mod verif_driver_coercion {
             if let Err(p) = quiet(|| expr_into_address_keyhash(&tir::Expression::Bytes(bytes.clone()))) {
                 witness("c14_coercion/expr_into_address_keyhash#precondition-of-callee", "expr_into_address_keyhash", format!("Bytes len={len}"), format!("panic:{p}"), "len != 28 ==> Err");
             }
-            if let Err(p) = quiet(|| policy_into_address(&bytes, Network::Testnet)) {
-                witness("c14_coercion/policy_into_address#precondition-of-callee", "policy_into_address", format!("policy len={len}"), format!("panic:{p}"), "len != 28 ==> Err");
+            // (policy_into_address is exercised through its stable entry point expr_into_address below)
+            for e in [tir::Expression::Hash(bytes.clone()), tir::Expression::Bytes(bytes.clone())] {
+                match quiet(|| expr_into_hash::<28>(&e).map(|_| ())) {
+                    Err(p) => witness("c14_coercion/expr_into_hash#precondition-of-callee", "expr_into_hash", format!("{} len={len}", if matches!(e, tir::Expression::Hash(_)) { "Hash" } else { "Bytes" }), format!("panic:{p}"), "len != 28 ==> Err"),
+                    Ok(r) => if r.is_ok() != (len == 28) { witness("c14_coercion/expr_into_hash#postcondition", "expr_into_hash", format!("len={len}"), format!("is_ok={}", r.is_ok()), "Ok iff len == 28") },
+                }
             }
             if let Err(p) = quiet(|| expr_into_address(&tir::Expression::Hash(bytes.clone()), Network::Testnet)) {
                 witness("c14_coercion/policy_into_address#precondition-of-callee", "policy_into_address", format!("expr_into_address(Hash len={len})"), format!("panic:{p}"), "len != 28 ==> Err");
@@ -53,6 +57,7 @@ mod verif_driver_coercion {
         println!("VERIF-CASES fn=expr_into_hash n={n}");
         println!("VERIF-CASES fn=expr_into_address_keyhash n={n}");
         println!("VERIF-CASES fn=policy_into_address n={n}");
+        println!("VERIF-CASES fn=expr_into_hash n={n}");
     }
 
     #[test]
